@@ -28,7 +28,10 @@ ASSUMPTIONS = ['dict keys are unique (Python dict); Asset objects are not shared
 def gen_cases(ctx, n):
     cases = []
     for i in range(n):
-        if ctx.rng.random() < 0.2:
+        r = ctx.rng.random()
+        if r < 0.1:
+            cases.append({'ops': G.shared_program(ctx.rng), 'share': True})
+        elif r < 0.3:
             cases.append({'ops': G.cancel_program(ctx.rng)})
         else:
             cases.append({'ops': G.rand_program(ctx.rng, ctx.rng.randint(3, 12))})
